@@ -121,6 +121,16 @@ static void setup_state(int state, enum cl_kind rkind)
 			xp_fail("setup-failed", "scenario preamble (add/fetch) was not answered with success");
 		}
 	}
+	if (state == 4) {
+		/* the requester already holds fetches under the ids used by the alphabet: 'fetch id in use' and successful unfetch become reachable */
+		jx_sendf(R, "{\"id\":\"r3\",\"method\":\"fetch\",\"params\":{\"id\":\"fx\",\"path\":{\"equals\":\"nothing-matches\"}}}");
+		jx_sendf(R, "{\"id\":\"r4\",\"method\":\"fetch\",\"params\":{\"id\":5,\"path\":{\"equals\":\"nothing-matches\"}}}");
+		jx_settle();
+		if (!jx_is_success(jx_find_response_str(R, "r3", 0)) || !jx_is_success(jx_find_response_str(R, "r4", 0))) {
+			jx_log_transcripts();
+			xp_fail("setup-failed", "scenario preamble (requester's fetches) was not answered with success");
+		}
+	}
 	if (state == 2) {
 		jx_sendf(R, "{\"id\":\"pre\",\"method\":\"call\",\"params\":{\"path\":\"ym\",\"args\":[0]}}");
 		jx_settle();
@@ -410,7 +420,12 @@ static void run(void)
 {
 	int nstates = (int)xp_param("states", 4);
 	int ntrans = (int)xp_param("transports", 2);
-	int state = xp_choose(nstates, XP_SCENARIO, "state");
+	/* order of exploration: empty, populated, populated + requester holds fetches with the ids the alphabet uses, then the two in-flight states */
+	static const int STATE_ORDER[5] = {0, 1, 4, 2, 3};
+	if (nstates > 5) {
+		nstates = 5;
+	}
+	int state = STATE_ORDER[xp_choose(nstates, XP_SCENARIO, "state")];
 	enum cl_kind rkind = xp_choose(ntrans, XP_SCENARIO, "transport") ? CL_WS : CL_RAW;
 	int mode = xp_choose(3, XP_SCENARIO, "mode");
 	if (mode == 2) {
